@@ -60,6 +60,25 @@ def run(env, tier, seed, broken=None):
     for a, b in [('0', '(0 * -1)'), ('(0 * -1)', '0'), ('1', '1.0'), ('0.5', '0.50'), ('100', '1e2'.replace('1e2', '(10 * 10)'))]:
         cid = 'z%d' % n; n += 1
         cases.append({'id': cid, 'src': '%s "a" + %s;\n%s "a" + %s;\n%s %s + "b";\n%s %s + "b";\n%s "a" + %s;\n' % (lang.PRINT, a, lang.PRINT, b, lang.PRINT, a, lang.PRINT, b, lang.PRINT, a)})
+    # numeric strings as operands: they denote the double the same text denotes as a literal (through toNumber), for every
+    # operator including the integer ones; equality compares strings by content, whatever number they spell
+    NUMSTR = ['"9007199254740993"', '"9007199254740992"', '"9223372036854775807"', '"9223372036854775808"', '"-9223372036854775808"', '"-9223372036854775809"',
+              '"18446744073709551616"', '"৯০০৭১৯৯২৫৪৭৪০৯৯৩"', '"007"', '"7"', '"৭"', '"7.0"', '"7e0"', '"1e2"', '"100"', '"১০০"', '"+5"', '"5."', '".5"', '"0.5"', '"  7"', '"7  "', '"1_000"',
+              '"NaN"', '"Inf"', '"-inf"', '"infinity"', '"1e400"', '"4.9e-324"', '"2.5e-324"', '"12"', '"১২"', '"1"', '"1.0"', '"-0"', '"0"', '"4294967296"', '"4294967297"']
+    for a in NUMSTR:
+        for op in pools.BINOPS:
+            for b in ['1', '0', '2', '62', '63', '"1"', a, 'arr3']:
+                cid = 'ns%d' % n; n += 1
+                cases.append({'id': cid, 'src': pools.SETUP + '%s %s %s %s;\n%s %s %s %s;\n' % (lang.PRINT, a, op, b, lang.PRINT, b, op, a)})
+        for u in pools.UNOPS:
+            cid = 'ns%d' % n; n += 1
+            cases.append({'id': cid, 'src': '%s %s%s;\n' % (lang.PRINT, u, a)})
+        cid = 'ns%d' % n; n += 1
+        cases.append({'id': cid, 'src': pools.SETUP + '%s arr3[%s];\n' % (lang.PRINT, a)})
+    for a in NUMSTR:
+        for b in NUMSTR:
+            cid = 'ns%d' % n; n += 1
+            cases.append({'id': cid, 'src': '%s %s == %s;\n%s %s != %s;\n%s %s + %s;\n%s %s < %s;\n' % (lang.PRINT, a, b, lang.PRINT, a, b, lang.PRINT, a, b, lang.PRINT, a, b)})
     nrand = 4000 if tier == 'quick' else 150000
     for op in ['+', '-', '*', '/', '%', '<', '<=', '>', '>=', '==', '&', '|', '^', '<<', '>>', '**']:
         for _ in range(nrand // 16):
